@@ -339,6 +339,7 @@ func (r *Reliable) send() {
 // receive is called by the muxer for each new packet
 func (r *Reliable) receive(pkt *frame) error {
 	r.l.Lock()
+	verifYield("Reliable.receive.locked")
 	defer r.l.Unlock()
 
 	if common.Debug {
@@ -374,6 +375,7 @@ func (r *Reliable) receive(pkt *frame) error {
 	if pkt.flags.ACK {
 		missingFrameNo, ackErr := r.sender.recvAck(pkt.ackNo)
 		if ackErr != nil {
+			verifTubeState(r, "cause.ackerr")
 			r.enterClosedState()
 			return ackErr
 		}
@@ -389,12 +391,15 @@ func (r *Reliable) receive(pkt *frame) error {
 		switch r.tubeState {
 		case finWait1:
 			r.tubeState = finWait2
+			verifTubeState(r, "ack")
 			r.log.Debug("got ACK of FIN packet. going from finWait1 to finWait2")
 		case closing:
 			r.log.Debug("got ACK of FIN packet. going from closing to closed")
+			verifTubeState(r, "cause.ack")
 			r.enterClosedState()
 		case lastAck:
 			r.log.Debug("got ACK of FIN packet. going from lastAck to closed")
+			verifTubeState(r, "cause.ack")
 			r.enterClosedState()
 		}
 	}
@@ -404,13 +409,16 @@ func (r *Reliable) receive(pkt *frame) error {
 		switch r.tubeState {
 		case initiated:
 			r.tubeState = closeWait
+			verifTubeState(r, "fin")
 			r.log.Debug("got FIN packet. going from initiated to closeWait")
 		case finWait1:
 			r.tubeState = closing
+			verifTubeState(r, "fin")
 			r.log.Debug("got FIN packet. going from finWait1 to closing")
 		case finWait2:
 			r.log.Debug("got FIN packet. going from finWait2 to closed")
 			r.sender.sendEmptyPacket()
+			verifTubeState(r, "cause.fin")
 			r.enterClosedState()
 		}
 		if r.tubeState != closed {
@@ -434,6 +442,7 @@ func (r *Reliable) enterLastAckState() {
 		r.l.Lock()
 		defer r.l.Unlock()
 		r.log.Warn("timer expired without getting ACK of FIN. going from lastAck to closed")
+		verifTubeState(r, "cause.timer")
 		r.enterClosedState()
 	})
 }
@@ -446,6 +455,8 @@ func (r *Reliable) enterClosedState() {
 	// Reject every producer before closing sender queues. This remains visible
 	// while the lifecycle lock is released to wait for the sender to drain.
 	r.tubeState = closed
+	verifTubeState(r, "closed")
+	verifYield("Reliable.enterClosedState.marked")
 	if r.lastAckTimer != nil {
 		r.lastAckTimer.Stop()
 	}
@@ -453,9 +464,11 @@ func (r *Reliable) enterClosedState() {
 	r.recvWindow.Close()
 	if waitForSender {
 		r.l.Unlock()
+		verifYield("Reliable.enterClosedState.unlocked")
 		<-r.sendDone
 		r.l.Lock()
 	}
+	verifYield("Reliable.enterClosedState.drained")
 	close(r.closed)
 }
 
@@ -480,7 +493,9 @@ func (r *Reliable) receiveInitiatePkt(pkt *initiateFrame) error {
 		r.recvWindow.m.Unlock()
 		r.log.Debug("INITIATED!")
 		r.tubeState = initiated
+		verifTubeState(r, "init")
 		if _, err := r.sender.recvAck(1); err != nil {
+			verifTubeState(r, "cause.ackerr")
 			r.enterClosedState()
 			return err
 		}
@@ -578,23 +593,29 @@ func (r *Reliable) Close() (err error) {
 	case <-r.closed:
 		break
 	}
+	verifYield("Reliable.Close.waited")
 
 	r.l.Lock()
 	defer r.l.Unlock()
+	verifYield("Reliable.Close.locked")
 
 	switch r.tubeState {
 	case created:
 		r.log.WithField("state", r.tubeState).Warn("tried to close tube in bad state")
+		verifTubeState(r, "close.bad")
 		return ErrBadTubeState
 	case initiated:
 		r.tubeState = finWait1
+		verifTubeState(r, "close")
 		r.log.Debug("call to close. going from initiated to finWait1")
 	case closeWait:
 		r.tubeState = lastAck
 		r.log.Debug("call to close. going from closeWait to lastAck")
 		r.enterLastAckState()
+		verifTubeState(r, "close")
 	default:
 		// In this case, Close() has already been called
+		verifTubeState(r, "close.eof")
 		return io.EOF
 	}
 
